@@ -449,6 +449,13 @@ def run(ctx):
                 case = {"kind": "smooth", "tree": rc, "window": int(rng.choice([1, 3, 5, 9]))}
                 ctx.case(case, nontrivial=rc["n"] >= 3, klass="smooth")
             execute(ctx, case)
+        for j, rc in enumerate(G.real_recipes(rng, 1000 if ctx.quick else None)):
+            if j % ctx.nshards == ctx.shard:
+                for case in ({"kind": "tree", "tree": rc, "spacing_mode": "rel", "factor": 0.5},
+                             {"kind": "smooth", "tree": rc, "window": 5}):
+                    ctx.case(case, klass="real-morphology")
+                    ctx.count("real_morphologies")
+                    execute(ctx, case)
     ctx.count("tap_assembler", tap.counts["assembler"])
     ctx.count("tap_resample", tap.counts["resample"])
     for fn, mech, detail in contracts.REC.problems:
